@@ -23,7 +23,7 @@ from . import common
 HISTORY_OPS = ['copy', 'copy_deep', 'copy_module', 'pickle', 'hold_refs', 'hold_refs', 'drop_refs', 'gc', 'touch', 'load', 'key', 'key', 'memory_layout', 'memory_layout',
                'print_options', 'dtype_spelling', 'other_byte_order', 'logging_debug', 'warnings_error']
 CREATES_HANDLE = ('copy', 'copy_deep', 'copy_module', 'pickle', 'dtype_spelling', 'other_byte_order')
-NONGEOM_EDITS = ['add_var', 'drop_var', 'alter_var', 'slice_time', 'global_attr', 'data_var_attr']
+NONGEOM_EDITS = ['add_var', 'drop_var', 'alter_var', 'slice_time', 'global_attr', 'data_var_attr', 'one_time_step', 'scalar_coord']
 GEOM_EDITS = ['value', 'dtype_same_bytes', 'shape_same_bytes', 'rename', 'attr_add', 'attr_change', 'attr_remove', 'convention', 'attr_array']
 
 
@@ -502,6 +502,13 @@ def _key_lifetime(ctx, plan, scratch):
             elif kind == 'slice_time':
                 new = ds.isel({tdim: slice(0, 1)}) if tdim in ds.sizes else ds.copy()
                 record_key(add(new, cls))
+            elif kind == 'one_time_step':
+                # one record picked out (isel(time=k), ncks -d time,k): time becomes a scalar coordinate
+                new = ds.isel({tdim: arg % ds.sizes[tdim]}) if tdim in ds.sizes else ds.copy()
+                record_key(add(new, cls))
+            elif kind == 'scalar_coord':
+                new = ds.assign_coords(run_number=arg)
+                record_key(add(new, cls))
             elif kind == 'global_attr':
                 new = ds.assign_attrs(history=f'edited {arg}')
                 new.attrs.pop('title', None)
@@ -519,16 +526,17 @@ def _key_lifetime(ctx, plan, scratch):
                 name = gv[arg % len(gv)]
                 edit = kind
                 if kind == 'value':
-                    cands = [n for n in gv if new[n].size > 0 and new[n].ndim > 0]
+                    cands = [n for n in gv if new[n].size > 0 and (new[n].ndim > 0 or numpy.asarray(new[n].values).dtype.kind in 'iuf')]
                     name = cands[arg % len(cands)]
-                    vals = numpy.array(new[name].values, order='C')
+                    vals = numpy.atleast_1d(numpy.array(new[name].values, order='C'))
+                    was_scalar = new[name].ndim == 0
                     # early and late positions alike (the last rows of a large array are as much geometry as the first)
                     pos = arg % vals.size if arg % 2 == 0 else vals.size - 1 - (arg // 2) % min(vals.size, 5)
                     if vals.dtype.kind == 'f':
                         vals.flat[pos] = 12345.678 if not (vals.flat[pos] == 12345.678) else 0.5
                     else:
                         vals.flat[pos] = vals.flat[pos] + 1
-                    new[name] = (new[name].dims, vals, dict(new[name].attrs))
+                    new[name] = (new[name].dims, vals if not was_scalar else vals.reshape(()), dict(new[name].attrs))
                     new[name].encoding = dict(ds[name].encoding)
                 elif kind == 'dtype_same_bytes':
                     cands = [n for n in gv if new[n].ndim > 0 and numpy.asarray(new[n].values).dtype.itemsize in (4, 8)]
